@@ -55,4 +55,147 @@ def splicedB (H H' : Hier) (new s : Name) : Bool :=
     | _, _ => false) &&
   H.all fun b => b.header != new
 
+/-! ## Rerouting arcs through chains of inserted blocks that assign / branch on fresh control variables
+
+What `insert_block_and_control_blocks` does (assignment block → branching head), and what the loop
+restructuring does to back edges and exits (assignment block → exiting latch [→ exit branch]). -/
+
+/-- Follow a chain of inserted blocks from `n` to the first name that is not inserted, knowing only the
+    values `σ` assigned along the chain (`none`: the chain's course is not determined by them). -/
+def chainEnd (H' : Hier) (isNew isFresh : Name → Bool) : Nat → Name → Val → Option Name
+  | 0, _, _ => none
+  | f + 1, n, σ =>
+    if !isNew n then some n else
+    match H'.get? n with
+    | none => none
+    | some b =>
+      if b.isRegion || b.isOrig then none
+      else if b.kind.isBranching then
+        if !isFresh b.var then none else
+        match σ.get? b.var with
+        | none => none
+        | some x =>
+          match (b.tbl.find? (fun p => p.1 == x)).map (·.2) with
+          | none => none
+          | some t =>
+            match idxOf b.jts t with
+            | none => none
+            | some i =>
+              match b.jts[i]? with
+              | none => none
+              | some t' => chainEnd H' isNew isFresh f t' (σ.erase b.var)
+      else
+        if b.asg.any (fun p => !isFresh p.1) then none else
+        match b.jts with
+        | [t] => chainEnd H' isNew isFresh f t (if b.kind == .synthAssign then σ.setAll b.asg else σ)
+        | _ => none
+
+/-- where an arc into an inserted chain used to go -/
+def unr (H' : Hier) (isNew isFresh : Name → Bool) (K : Nat) (x : Name) : Name :=
+  if isNew x then (chainEnd H' isNew isFresh K x []).getD x else x
+
+def sameUpToUB (u : Name → Name) (b b' : Blk) : Bool :=
+  b' == { b with jts := b'.jts, tbl := b'.tbl, bes := b'.bes } && b'.jts.map u == b.jts &&
+  tblRelB u b.tbl b'.tbl && (!b.kind.isBranching || injOn u b'.jts)
+
+/-- the block neither reads nor writes a fresh variable -/
+def untouchedB (isFresh : Name → Bool) (b : Blk) : Bool :=
+  (!b.kind.isBranching || !isFresh b.var) && b.asg.all (fun p => !isFresh p.1)
+
+/-- `H'` is `H` plus inserted blocks (the names `H` does not have); arcs of old blocks may have been
+    rerouted into chains of inserted blocks that end where the arc used to go, and old blocks do not
+    touch the variables in `fresh` -/
+def reroutedB (H H' : Hier) (fresh : List Name) : Bool :=
+  let isNew := fun n => (H.get? n).isNone
+  let isFresh := fun x => fresh.contains x
+  let K := H'.length + 1
+  let u := unr H' isNew isFresh K
+  ((H.names ++ H'.names).all fun n => isNew n ||
+    match H.get? n, H'.get? n with
+    | some b, some b' => sameUpToUB u b b' && untouchedB isFresh b &&
+        b'.jts.all (fun x => !isNew x || (chainEnd H' isNew isFresh K x []).isSome)
+    | _, _ => false) &&
+  H.all fun b => !isNew b.header || !b.isRegion
+
+def varsOf (H : Hier) : List Name := H.flatMap fun b => b.var :: b.asg.map (·.1)
+
+/-- the control variables `H'` uses and `H` does not -/
+def freshVars (H H' : Hier) : List Name := (varsOf H').filter fun x => !(varsOf H).contains x
+
+/-! ## Closing the graph: exits get the edge to one new halting block -/
+
+def closedRelB (new : Name) (b b' : Blk) : Bool :=
+  b' == { b with jts := b'.jts } && !b.jts.contains new &&
+  (b'.jts == b.jts || (b.jts.isEmpty && b'.jts == [new] && !b.kind.isBranching))
+
+def closedB (H H' : Hier) (new : Name) : Bool :=
+  (H.get? new).isNone &&
+  (match H'.get? new with
+   | some nb => !nb.isRegion && !nb.isOrig && !nb.kind.isBranching && nb.jts.isEmpty
+   | none => false) &&
+  ((H.names ++ H'.names).all fun n => n == new ||
+    match H.get? n, H'.get? n with
+    | none, none => true
+    | some b, some b' => closedRelB new b b'
+    | _, _ => false) &&
+  H.all fun b => b.header != new
+
+/-! ## A whole run of the pipeline as a chain of certified steps -/
+
+inductive StepTag
+  | wrapped (r hdr : Name)
+  | spliced (new s : Name)
+  | rerouted
+  | closed (new : Name)
+  deriving Repr, Inhabited
+
+def stepOK (H H' : Hier) : StepTag → Bool
+  | .wrapped r hdr => (H.get? r).isNone && wrappedB H H' r hdr
+  | .spliced new s => (H.get? new).isNone && splicedB H H' new s
+  | .rerouted => reroutedB H H' (freshVars H H')
+  | .closed new => closedB H H' new
+
+def chainOK : Hier → List (StepTag × Hier) → Bool
+  | _, [] => true
+  | H, (t, H') :: rest => stepOK H H' t && chainOK H' rest
+
+/-- the first step of the chain that does not pass its check -/
+def chainFirstBad : Hier → List (StepTag × Hier) → Nat → Option Nat
+  | _, [], _ => none
+  | H, (t, H') :: rest, k => if stepOK H H' t then chainFirstBad H' rest (k + 1) else some k
+
+/-- a flat graph of original blocks without dangling targets (the input of the pipeline) -/
+def flatB (G : Hier) : Bool := G.all fun b => b.isOrig && b.jts.all fun t => (G.get? t).isSome
+
+/-- every table entry of a branching block is one of its successors -/
+def tblOKB (H : Hier) : Bool :=
+  H.all fun b => !b.kind.isBranching || b.tbl.all fun p => b.jts.contains p.2
+
+/-- the step check for the unconditional statement: additionally the tables of the result are in order -/
+def stepOKc (H H' : Hier) (t : StepTag) : Bool := stepOK H H' t && tblOKB H'
+
+def chainOKc : Hier → List (StepTag × Hier) → Bool
+  | _, [] => true
+  | H, (t, H') :: rest => stepOKc H H' t && chainOKc H' rest
+
+/-- fuel (header fuel, step fuel) that provably suffices after a step, given fuel that sufficed before -/
+def stepFuel (H' : Hier) : StepTag → Nat × Nat → Nat × Nat
+  | .wrapped _ _, (R, F) => (2 * R, F)
+  | .spliced _ _, (R, F) => (R, 2 * F)
+  | .rerouted, (R, F) => (R, (H'.length + 2) * F)
+  | .closed _, (R, F) => (R, F + 1)
+
+def chainFuel : List (StepTag × Hier) → Nat × Nat → Nat × Nat
+  | [], rf => rf
+  | (t, H') :: rest, rf => chainFuel rest (stepFuel H' t rf)
+
+/-- per step of the chain: does it pass its check -/
+def chainBits : Hier → List (StepTag × Hier) → List Bool
+  | _, [] => []
+  | H, (t, H') :: rest => stepOKc H H' t :: chainBits H' rest
+
+def chainLast : Hier → List (StepTag × Hier) → Hier
+  | H, [] => H
+  | _, (_, H') :: rest => chainLast H' rest
+
 end Scfg.Spec
